@@ -1035,11 +1035,9 @@ fn gen_scenario_with(rng: &mut Rng, proto: Proto, max_payload: usize, o: ScOpts)
     let ctxs = vec![PREFIX, PREFIX2];
     let a = NodeCfg { hw: hw_a, addrs: vec![src], ctx: ctxs.clone(), groups: vec![], mtu: 1280, seed: rng.next_u64() | 1 };
     let b = NodeCfg { hw: hw_b, addrs: vec![baddr], ctx: ctxs, groups, mtu: 1280, seed: rng.next_u64() | 1 };
-    // Joining a group makes smoltcp emit an MLD report, which panics on an 802.15.4
-    // interface (FINDINGS.md F5).  The report is attempted only when the radio accepts a
-    // transmission, so in most such scenarios B is a receive-only observer; one in eight
-    // keeps B's radio open so that the defect stays visible.
-    let b_rx_only = !b.groups.is_empty() && !rng.chance(1, 8);
+    // A joined group makes B emit MLD reports (LOWPAN_NHC hop-by-hop header); in half of such
+    // scenarios B is a receive-only observer whose radio refuses transmit().
+    let b_rx_only = !b.groups.is_empty() && rng.chance(1, 2);
     Scenario {
         a,
         b,
@@ -2326,7 +2324,7 @@ pub fn monitor() -> super::Monitor {
             "'must be sent': the uncompressed datagram fits FRAGMENTATION_BUFFER_SIZE and REASSEMBLY_BUFFER_SIZE; larger datagrams may be dropped or sent, but never partially and never corrupted",
             "'order the reassembler can track': fresh receiver, and no prefix of the arrival order needs more than ASSEMBLER_MAX_SEGMENT_COUNT disjoint ranges; for all other orders B may deliver nothing or the exact datagram; B never delivers more copies than the minimum multiplicity of a fragment on the link",
             "a receiver whose only reassembly buffer is occupied by a train the sender abandoned is not 'fresh': missing deliveries of later fragmented datagrams are then attributed to the sender's defect (frag-train-abandoned), not reported separately",
-            "joining a multicast group makes smoltcp panic on an 802.15.4 interface as soon as the radio accepts a transmission (finding F5); in 7 of 8 scenarios with a joined group B's radio therefore refuses transmit() (receive-only observer), 1 of 8 keeps it open so that the defect stays visible",
+            "in half of the scenarios with a joined group B's radio refuses transmit() (receive-only observer); in the other half B emits its MLD reports over 6LoWPAN (before the fix for that path every such scenario panicked)",
             "datagrams with a hop-by-hop header are demanded only in the encoding smoltcp itself uses (LOWPAN_NHC, padding kept); for the in-line and pad-elided RFC encodings only 'nothing or exact' is checked; raw sockets do not see datagrams with extension headers",
             "TCP: segments cannot be constructed from send parameters; judged are checksum/addresses/ports (hop limit for segments the socket dispatches itself), equality of every datagram a raw socket on the receiver sees with one decoded independently from the link, the byte streams, and the SYN against a Medium::Ip twin with the same seed",
         ],
